@@ -113,3 +113,29 @@ func zzH_C03_transaction_static_rules(t *zzT) {
 	t.Assert(got == want, "Transaction.Validate accepts exactly: ASCII-alphanumeric module and command, 32-byte sender key, >= 1 signature, all signatures 64 bytes")
 	t.Reach("end")
 }
+
+// C03 static validity of the block's assets (Block.Validate -> BlockAssets.Valid): 0..4 assets whose module names
+// are symbolic single letters: accepted exactly when the modules are strictly ascending (sorted and unique) —
+// so that assetRoot commits to one asset per module and GetAsset is unambiguous.
+// (seed C03-9 compared every asset only with the FIRST one.)
+//
+//zz:opt loop=64
+func zzH_C03_block_assets_static_rules(t *zzT) {
+	n := t.Range("assets", 0, 4)
+	as := make(BlockAssets, n)
+	mods := make([]byte, n)
+	for i := range as {
+		m := t.U8(t.Name("module", i))
+		t.Assume(m >= 'a' && m <= 'e')
+		mods[i] = m
+		as[i] = &BlockAsset{Module: string([]byte{m}), Data: []byte{byte(i)}}
+	}
+	want := true
+	for i := 1; i < n; i++ {
+		want = t.And(want, mods[i-1] < mods[i])
+	}
+	got := as.Valid() == nil
+	t.ObserveBool("got", got)
+	t.Assert(got == want, "block assets are accepted exactly when their modules are strictly ascending (sorted, unique)")
+	t.Reach("end")
+}
